@@ -93,7 +93,7 @@ EVAL_PLACES = {
 REGEXES = {
     "nested-plus": ("(a+)+$", "a" * 40 + "b"),
     "lookahead": ("(?=(a+)+b)a", "a" * 40 + "c"),
-    "lookbehind": ("c(?<=(a+)+bc)", "a" * 40 + "c"),
+    "lookbehind": ("(?<=b(a+)+)c", "a" * 40 + "c"),      # matched right-to-left: the loop runs before the missing b is noticed
     "alternation": ("(a|aa)+$", "a" * 40 + "b"),
     "lookahead-in-loop": ("^(?:(?=a)a|a)*$", "a" * 40 + "!"),
     "lookbehind-in-loop": ("^(?:a(?<=a)|a(?<=a))*b", "a" * 40),
